@@ -51,8 +51,11 @@ def codec(name):
 # "aux outside documented type": aux_operators_evaluated holding a QuasiDistribution (isinstance(…, dict) is True for the
 # dict subclass: written as {"type": "dict", …}, comes back as a plain dict), a tuple (neither list nor dict: null) or a
 # nested list - outside the property (documented: list / dict of numbers / None); compared with the model only.
+# "dict document" through the job-shop / layer / population decoders: their object_hook ends without a clause for a dict it
+# does not recognise, so the outer dict of the document becomes None (reported to the lead; the property lists objects, a list
+# of them keeps every member; a dict of them survives only the result decoder, which hands unrecognised dicts through).
 UNCLAIMED = {("result", "Gate"), ("result", "EVQECircuitLayer"), ("result", "bare QuasiDistribution"),
-             ("result", "aux outside documented type")}
+             ("result", "aux outside documented type"), ("jssp", "dict document"), ("evqe", "dict document"), ("layer", "dict document")}
 GENERATORS = [
     # (label, codecs, generator, weight)
     ("Machine", ["jssp"], jk.gen_machine, 1),
@@ -70,6 +73,15 @@ GENERATORS = [
     ("QuantumCircuit", ["result"], lambda rng: {"qc": f"QPY{rng.randrange(4)}"}, 1),
     ("bare QuasiDistribution", ["result"], jk.gen_quasi, 1),
     ("aux outside documented type", ["result"], jk.gen_result_odd_aux, 2),
+    # several objects with colliding names (same job / operation names, other durations; same circuit structure, other parameters)
+    # in ONE document: a list - and a dict with plain string keys, which only the result decoder hands through
+    ("list document", ["jssp"], lambda rng: jk.gen_document(rng, rng.choice([jk.gen_instance, jk.gen_jssp_result, jk.gen_job]), "list"), 4),
+    ("list document", ["evqe", "result"], lambda rng: jk.gen_document(rng, rng.choice([jk.gen_individual, jk.gen_population]), "list"), 2),
+    ("list document", ["layer", "evqe"], lambda rng: jk.gen_document(rng, jk.gen_layer, "list"), 1),
+    ("list document", ["result"], lambda rng: jk.gen_document(rng, rng.choice([jk.gen_solver_result, jk.gen_popeval]), "list"), 3),
+    ("dict document", ["jssp"], lambda rng: jk.gen_document(rng, rng.choice([jk.gen_instance, jk.gen_jssp_result]), "dict"), 1),
+    ("dict document", ["evqe", "result"], lambda rng: jk.gen_document(rng, jk.gen_population, "dict"), 1),
+    ("dict document", ["result"], lambda rng: jk.gen_document(rng, jk.gen_solver_result, "dict"), 1),
 ]
 
 
@@ -84,7 +96,7 @@ def strip_path(d):
     return p[2:] if p.startswith("x.") else p
 
 
-def roundtrip(ctx, case, x, codec_name, label, encode=None, note=""):
+def roundtrip(ctx, case, x, codec_name, label, encode=None, note="", decode=None):
     """x: implementation object *as it is now*. Runs the oracle, returns the Gallina case or None.
     encode: how the text is produced (default json.dumps(x, cls=Enc)); note: where in a sequence we are."""
     Enc, Dec = codec(codec_name)
@@ -100,7 +112,7 @@ def roundtrip(ctx, case, x, codec_name, label, encode=None, note=""):
         return None
     raw = json.loads(text)
     try:
-        y = json.loads(text, cls=Dec)
+        y = json.loads(text, cls=Dec) if decode is None else decode(text)
         dec = ("ok", jk.to_pv(y))
     except Exception as e:
         dec = ("err", exc_name(e))
@@ -152,6 +164,13 @@ def encoders_for(rng, codec_name):
     e1, e2 = Enc(), Enc()
     return [("dumps(cls)", lambda o: json.dumps(o, cls=Enc)), ("instance-1.encode", e1.encode), ("instance-2.encode", e2.encode),
             ("dumps(cls, indent)", lambda o: json.dumps(o, cls=Enc, indent=1))]
+
+
+def decoders_for(rng, codec_name):
+    """json.loads with the class (a new decoder object per call) and two long-lived decoder objects used for document after document"""
+    _, Dec = codec(codec_name)
+    d1, d2 = Dec(), Dec()
+    return [("loads(cls)", None), ("decoder-1.decode", d1.decode), ("decoder-2.decode", d2.decode), ("decoder-1.decode", d1.decode)]
 
 
 def mutate_result(rng, r):
@@ -246,9 +265,15 @@ def run_sequence(ctx, case):
     scenario, out = case["scenario"], []
     label = f"sequence:{scenario}"
 
+    decs = {}
+
     def step(x, codec_name, k, what, enc=None):
         name, fn = enc if enc else ("dumps(cls)", None)
-        g = roundtrip(ctx, case, x, codec_name, label, encode=fn, note=f"step {k}: {what}; encoded with {name}")
+        if codec_name not in decs:
+            decs[codec_name] = decoders_for(rng, codec_name)
+        dname, dfn = rng.choice(decs[codec_name])
+        g = roundtrip(ctx, case, x, codec_name, label, encode=fn, decode=dfn,
+                      note=f"step {k}: {what}; encoded with {name}, decoded with {dname}")
         case.pop("_raw", None)
         if g:
             out.append(g)
@@ -291,6 +316,19 @@ def run_sequence(ctx, case):
                 step(jk.from_pv(jk.gen_population(rng)), "evqe", k, "interleaved population")
             del r, qc
             gc.collect()
+    elif scenario == "colliding-documents":
+        # one encoder object and one decoder object handle document after document; the documents hold objects with the same
+        # names (job / operation / machine names, circuit structure) but other content
+        cn = case["codec"]
+        gen = {"jssp": [jk.gen_instance, jk.gen_jssp_result, jk.gen_job, jk.gen_operation], "layer": [jk.gen_layer],
+               "evqe": [jk.gen_individual, jk.gen_population], "result": [jk.gen_solver_result, jk.gen_popeval, jk.gen_population]}[cn]
+        base = rng.choice(gen)(rng)
+        encs = encoders_for(rng, cn)
+        for k in range(case["steps"]):
+            pv = jk.vary(base, k)
+            if rng.random() < 0.3:
+                pv = [pv, jk.vary(base, k + 5)]
+            step(jk.from_pv(pv), cn, k, "same names, other content" + (" (two in one list)" if isinstance(pv, list) else ""), rng.choice(encs))
     else:
         raise ValueError(scenario)
     return out
@@ -502,6 +540,10 @@ def run(ctx):
                                    ("mutate-jssp", ctx.n(4, 30), 4), ("short-lived", ctx.n(2, 8), ctx.n(40, 120))):
         for _ in range(count):
             cases.append(dict(kind="sequence", scenario=scenario, seed=ctx.rng.randrange(10**9), steps=steps, label=f"sequence:{scenario}"))
+    for cn, count in (("jssp", ctx.n(8, 40)), ("layer", ctx.n(2, 10)), ("evqe", ctx.n(4, 20)), ("result", ctx.n(4, 20))):
+        for _ in range(count):
+            cases.append(dict(kind="sequence", scenario="colliding-documents", codec=cn, seed=ctx.rng.randrange(10**9), steps=4,
+                              label="sequence:colliding-documents"))
     glits, kept = [], []
     n_damage = 1
     for c in cases:
@@ -565,7 +607,7 @@ def run(ctx):
     # every generated object of a class the theorems speak about must satisfy their hypotheses (typed view exists,
     # embeds back to the very object, constructors' checks and key distinctness hold): the theorems are about what the
     # public constructors build, not about a convenient subset
-    NOT_IN_THEOREMS = {"complex", "QuantumCircuit", "bare QuasiDistribution", "aux outside documented type"}
+    NOT_IN_THEOREMS = {"complex", "QuantumCircuit", "bare QuasiDistribution", "aux outside documented type", "list document", "dict document"}
     should = [i for i, c in enumerate(kept) if c["kind"] in ("round", "solver") and c.get("label") not in NOT_IN_THEOREMS
               and (c.get("codec", "result"), c.get("label")) not in UNCLAIMED]
     missing = [i for i in should if i not in covered]
